@@ -390,6 +390,9 @@ func (b *Broker) serve(c *BConn) {
 	}
 }
 
+// HandleDefault processes m with the default behaviour (used by scripts that delay a message).
+func (b *Broker) HandleDefault(c *BConn, m message.Message) { b.handle(c, m) }
+
 func (b *Broker) handle(c *BConn, m message.Message) {
 	switch m := m.(type) {
 	case *message.ConnectRequest:
